@@ -1,4 +1,5 @@
 //@host src/io_loop/mod.rs
+//@quick (generic sweep whose oracle does not depend on wall-clock time: also runs in the quick tier, labelled bounded)
 // C03 / C06 bounded stand-in, end to end through the public API (real I/O thread, in-memory broker): the server sends deliveries to two
 // consumers on two channels, basic.get replies and returned messages, interleaved across channels, with bodies of 0, 1, p-1, p, p+1, 2p,
 // 3p+5 bytes (p = the largest body frame payload for the negotiated frame_max) cut into body frames at the limit or into smaller, uneven
@@ -6,7 +7,7 @@
 // Oracle = the properties: every message arrives exactly once, whole and in order at its addressee - the consumer of its tag, the caller
 // of the get, the return listener of its channel - with every field (tags, flags, exchange, routing key, reply code / text, properties,
 // body) equal to what the server sent, whatever the frame and read segmentation.
-// Bound: 7 body sizes x 2 framings x 6 read chunk sizes, four kinds of content; waits use timeouts that only matter when something hangs.
+// Bound: 7 body sizes x 2 framings x 6 read chunk sizes, four kinds of content; 15 big-frame segmentations; 12 tag-reuse histories; waits use timeouts that only matter when something hangs.
 include!("/verif/witness/_common/live_broker.rs");
 use crate::{AmqpProperties, Auth, Connection, ConnectionOptions, ConnectionTuning, ConsumerMessage, ConsumerOptions, Delivery};
 
@@ -125,17 +126,19 @@ fn run(read_chunk: Option<usize>, uneven_frames: bool) {
     connection.close().unwrap_or_else(|e| panic!("{}: close: {}", what, e));
 }
 
-// frames larger than 64 KiB (the input buffer grows), then small messages; the stream reaches the client in pieces that end 1, 3 or 6 bytes
+// frames larger than 64 KiB, up to exactly frame_max (the input buffer grows), and bodies of several maximal frames, then small messages; the stream reaches the client in pieces that end 1, 3 or 6 bytes
 // into the header of the frame following each message (the read behind each piece would block)
-fn run_big_then_small(extra: usize) {
-    let what = format!("big frames then small ones, pieces end {} bytes into the next frame header", extra);
+fn run_big_then_small(extra: usize, read_chunk: Option<usize>) {
+    let what = format!("big frames then small ones, pieces end {} bytes into the next frame header, reads of at most {:?} bytes", extra, read_chunk);
     let ctl = Handle::new();
     (ctl.0).0.lock().unwrap().tune = Some(connection_::Tune { channel_max: 16, frame_max: 131_072, heartbeat: 0 });
     let mut connection = Connection::insecure_open_stream(LiveBroker::new(ctl.clone()), ConnectionOptions::<Auth>::default().heartbeat(0), ConnectionTuning::default()).expect("handshake");
     let ch1 = connection.open_channel(Some(1)).unwrap();
     let c1 = ch1.basic_consume("q1", ConsumerOptions::default()).unwrap();
     let tag1 = c1.consumer_tag().to_string();
-    let sizes = [100_000usize, 10, 0, 70_000, 3, 1, 90_001, 12];
+    // each big frame reaches the client in many reads (the frame is incomplete, partly buffered, and another read is needed - several times)
+    ctl.set_read_chunk(read_chunk);
+    let sizes = [100_000usize, 10, 0, 70_000, 3, 1, 90_001, 12, 131_064, 131_065, 300_000];
     let mut pieces: Vec<Vec<u8>> = vec![Vec::new()];
     for (k, &len) in sizes.iter().enumerate() {
         let mut m = method_bytes(1, B::Deliver(basic::Deliver { consumer_tag: tag1.clone(), delivery_tag: 1 + k as u64, redelivered: false, exchange: "ex".to_string(), routing_key: format!("k{}", k) }));
@@ -157,16 +160,120 @@ fn run_big_then_small(extra: usize) {
             other => panic!("{}: message {}: {:?}", what, k, other),
         }
     }
+    ctl.set_read_chunk(None);
     assert!(ch1.queue_purge("q").is_ok(), "{}: the channel is unusable afterwards", what);
     std::mem::forget(c1);
     std::mem::forget(ch1);
     connection.close().unwrap_or_else(|e| panic!("{}: close: {}", what, e));
 }
 
+// consumer tags are unique among a channel's ACTIVE consumers only: after the server cancelled the consumer with tag T (or the client did),
+// the server may hand out T again on that channel; deliveries addressed to T then belong to the new consumer, never to the old one's queue.
+fn consume_with_tag<'a>(ctl: &Handle, ch: &'a crate::Channel, n: u16, tag: &str) -> crate::Consumer<'a> {
+    ctl.withhold(n, 60, 20);
+    ctl.take_seen();
+    let ctl2 = ctl.clone();
+    let reply = method_bytes(n, B::ConsumeOk(basic::ConsumeOk { consumer_tag: tag.to_string() }));
+    let t = std::thread::spawn(move || {
+        assert!(ctl2.wait_for(|(c, f)| *c == n && matches!(f, AMQPFrame::Method(_, AMQPClass::Basic(B::Consume(_)))), T), "basic.consume never reached the broker");
+        ctl2.inject(reply);
+    });
+    let c = ch.basic_consume("q", ConsumerOptions::default()).unwrap();
+    t.join().unwrap();
+    assert_eq!(c.consumer_tag(), tag);
+    c
+}
+
+fn deliver(ctl: &Handle, n: u16, tag: &str, delivery_tag: u64, body: &[u8]) {
+    let mut m = method_bytes(n, B::Deliver(basic::Deliver { consumer_tag: tag.to_string(), delivery_tag, redelivered: false, exchange: "ex".to_string(), routing_key: "k".to_string() }));
+    m.extend(content(n, body, &props(delivery_tag as u8), &[1000]));
+    ctl.inject(m);
+}
+
+fn run_tag_reuse(server_cancels: bool, deliveries_before: usize, other_consumer_between: bool) {
+    let what = format!("tag reuse after {} cancel, {} deliveries before, other consumer between: {}", if server_cancels { "server" } else { "client" }, deliveries_before, other_consumer_between);
+    let ctl = Handle::new();
+    let mut connection = Connection::insecure_open_stream(LiveBroker::new(ctl.clone()), ConnectionOptions::<Auth>::default().heartbeat(0), ConnectionTuning::default()).expect("handshake");
+    // (never dropped: nothing in this scenario may depend on what dropping a channel does)
+    let ch1: &'static crate::Channel = Box::leak(Box::new(connection.open_channel(Some(1)).unwrap()));
+    let old = consume_with_tag(&ctl, ch1, 1, "T");
+    let old_rx = old.receiver().clone();
+    let other = if other_consumer_between { Some(consume_with_tag(&ctl, ch1, 1, "U")) } else { None };
+    for k in 0..deliveries_before {
+        deliver(&ctl, 1, "T", 1 + k as u64, &body_of(10 + k, 1));
+    }
+    if let Some(o) = &other {
+        if deliveries_before == 0 {
+            deliver(&ctl, 1, "U", 90, b"for U");
+            match o.receiver().recv_timeout(T) {
+                Ok(ConsumerMessage::Delivery(d)) => assert_eq!(d.body, b"for U", "{}", what),
+                x => panic!("{}: consumer U: {:?}", what, x),
+            }
+        }
+    }
+    for k in 0..deliveries_before {
+        match old_rx.recv_timeout(T) {
+            Ok(ConsumerMessage::Delivery(d)) => assert_eq!(d.body, body_of(10 + k, 1), "{}", what),
+            x => panic!("{}: old consumer message {}: {:?}", what, k, x),
+        }
+    }
+    if server_cancels {
+        ctl.inject(method_bytes(1, B::Cancel(basic::Cancel { consumer_tag: "T".to_string(), nowait: true })));
+        match old_rx.recv_timeout(T) {
+            Ok(ConsumerMessage::ServerCancelled) => {}
+            x => panic!("{}: old consumer after the server's cancel: {:?}", what, x),
+        }
+        std::mem::forget(old); // (dropping it would send a Basic.Cancel for T, which by then names the new consumer)
+    } else {
+        old.cancel().unwrap_or_else(|e| panic!("{}: cancel: {}", what, e));
+        match old_rx.recv_timeout(T) {
+            Ok(ConsumerMessage::ClientCancelled) => {}
+            x => panic!("{}: old consumer after its cancel: {:?}", what, x),
+        }
+    }
+    // the same tag again, for a new consumer
+    let new = consume_with_tag(&ctl, ch1, 1, "T");
+    for k in 0..3usize {
+        deliver(&ctl, 1, "T", 100 + k as u64, &body_of(20 + k, 2));
+    }
+    for k in 0..3usize {
+        match new.receiver().recv_timeout(T) {
+            Ok(ConsumerMessage::Delivery(d)) => {
+                assert_eq!(d.delivery_tag(), 100 + k as u64, "{}", what);
+                assert_eq!(d.body, body_of(20 + k, 2), "{}", what);
+            }
+            x => panic!("{}: the new consumer with tag T did not get message {} addressed to it: {:?}", what, k, x),
+        }
+    }
+    match old_rx.recv_timeout(Duration::from_millis(50)) {
+        Err(crossbeam_channel::RecvTimeoutError::Disconnected) => {}
+        x => panic!("{}: the cancelled consumer's queue after its terminal message: {:?}", what, x),
+    }
+    assert!(ch1.queue_purge("q").is_ok(), "{}: the channel is unusable afterwards", what);
+    std::mem::forget(new);
+    if let Some(o) = other {
+        std::mem::forget(o);
+    }
+    connection.close().unwrap_or_else(|e| panic!("{}: close: {}", what, e));
+}
+
+#[test]
+fn verif_sweep_c03_consumer_tag_handed_out_again() {
+    for &server_cancels in &[true, false] {
+        for &before in &[0usize, 1, 3] {
+            for &other in &[false, true] {
+                with_watchdog(format!("tag reuse {} {} {}", server_cancels, before, other), 60, move || run_tag_reuse(server_cancels, before, other));
+            }
+        }
+    }
+}
+
 #[test]
 fn verif_sweep_c03_c06_big_frames_then_small_ones() {
     for &extra in &[1usize, 3, 6] {
-        with_watchdog(format!("big frames, extra={}", extra), 120, move || run_big_then_small(extra));
+        for &read_chunk in &[None, Some(50_000usize), Some(10_000), Some(4097), Some(1000)] {
+            with_watchdog(format!("big frames, extra={} read_chunk={:?}", extra, read_chunk), 120, move || run_big_then_small(extra, read_chunk));
+        }
     }
 }
 
